@@ -168,7 +168,12 @@ TEXTS = {
                 "THE WHOLE hp.obo FILE (C09_read_obo_file): a header chunk followed by any number of such stanzas, joined by one blank line "
                 "each, is read by read_obo_file as: the header's release version; every stanza's term in file order; exactly the is_a links of "
                 "the stanzas, applied after all terms are known (split on a blank line inverts that join: C09_split_inverts_blank_join). "
-                "PARTIAL: the gene / hpoa row parsers have no file-level theorem yet; they are decided per generated directory by spec_C09 on the "
+                "THE TWO ANNOTATION FILES (C09_gene_file, C09_hpoa_file): header + rows, with or without a final newline, are read as exactly one "
+                "annotate call per (non-NOT, OMIM/ORPHA) row in file order; comment, header and other-database lines contribute nothing; ids "
+                "rendered in decimal of any width parse back. BOTH LOADERS (C09_loaded_ontologies_satisfy_C01_C02_C03): whenever a load "
+                "succeeds on files whose hp.obo names only is_a targets with their own stanza, the ontology has exact ancestor caches, an "
+                "acyclic graph, annotation sets = inherited direct rows and information content = calculate(N, n). Equality with the Builder "
+                "and binary paths is decided per generated directory by spec_C09 on the "
                 "crate's observations (both loaders, the Builder API and the binary format give the same dump, and that dump is exactly the "
                 "one the facts describe, with the C01-C03 statements on everything derived) and by diffing the Gallina transcription of "
                 "hp_obo.rs / parser.rs (run on the SAME file bytes) against the crate.",
